@@ -2,6 +2,8 @@ package server
 
 import (
 	"context"
+	"html/template"
+	"io/fs"
 	"net"
 	"sync/atomic"
 	"time"
@@ -9,6 +11,8 @@ import (
 	"go.miragespace.co/specter/spec/chord"
 	"go.miragespace.co/specter/spec/protocol"
 	"go.miragespace.co/specter/spec/transport"
+
+	"github.com/sethvargo/go-diceware/diceware"
 )
 
 // zzKV is the chord node a tunnel server talks to, reduced to a read-only key-value table: Get answers from a
@@ -102,3 +106,11 @@ func (t *zzTransport) ListConnected() []transport.ConnectedPeer            { ret
 func (t *zzTransport) SupportDatagram() bool                               { return false }
 func (t *zzTransport) ReceiveDatagram() <-chan *transport.DatagramDelegate { return nil }
 func (t *zzTransport) SendDatagram(*protocol.Node, []byte) error           { return nil }
+
+// Package initialisers of tun/server that have nothing to do with the code under test (HTML templates for the
+// status page, the diceware word list for generated hostnames, spec/tun's ALPN name table built by protobuf reflection)
+// are substituted away under the engine.
+func zzNoInit()                                                                {}
+func zzNoTemplates(fsys fs.FS, patterns ...string) (*template.Template, error) { return nil, nil }
+func zzTemplateMust(t *template.Template, err error) *template.Template        { return t }
+func zzNoGenerator(*diceware.GeneratorInput) (*diceware.Generator, error)      { return nil, nil }
